@@ -198,6 +198,21 @@ def judge_line(G, l, rng, free=False):
     if r2[0] == 'ok' and not l.virtual:
         o2 = r2[1]
         c2 = o2.clone()
+        # values that are decoded on access: read every field of both copies, then compare the object identities again
+        for x in (o2, c2):
+            for f in list(x.positional_fieldnames) + list(x.tagnames):
+                impl.outcome(lambda: x.get(f))
+        a2, la2 = {}, []
+        for v in o2._data.values():
+            walk(v, a2, la2)
+        b2, lb2 = {}, []
+        for v in c2._data.values():
+            walk(v, b2, lb2)
+        sh = set(a2) & set(b2)
+        if sh:
+            o = a2[sorted(sh)[0]]
+            out.append(('after both copies of %r decoded their fields they share a mutable %s object' % (t[:60], type(o).__name__), None, repr(o)[:80]))
+            return out, modes, nontrivial
         t2 = str(c2)
         for _ in range(rng.randint(3, 10)):
             what = mutate_in_place(rng, o2) if rng.random() < 0.7 else assign(rng, o2)
